@@ -271,6 +271,26 @@ func checkH264Lossless(disable, avc bool, mtu int, calls [][][]byte, c *RNG) (ca
 	return cases, "", ""
 }
 
+// emitH264Extremes: sizes at which narrow integer arithmetic would wrap - a unit cut into more than
+// 256 (and more than 512) FU-A fragments, and held SPS+PPS pairs whose STAP-A size crosses 2^16.
+// The payloader output is also fed to H264Packet (op 1002) and compared with the units.
+func emitH264Extremes(c *RNG, emit func(op int, toks ...Tok)) {
+	run := func(disable bool, mtu int, nals [][]byte) {
+		cs, fail, known := checkH264Lossless(disable, c.Bool(), mtu, [][][]byte{nals}, c.Fork(uint64(mtu)))
+		line := CaseLine(1001, TI(b2i(disable)), TList(cs))
+		if fail != "" {
+			pendingFailures = append(pendingFailures, pendingFailure{line, fail, known})
+		}
+		emit(1001, TI(b2i(disable)), TList(cs))
+	}
+	run(false, 3, [][]byte{genH264Nal(c, 5, 2+257)})
+	run(false, 4, [][]byte{genH264Nal(c, 1, 2+2*520)})
+	run(true, 5, [][]byte{genH264Nal(c, 7, 800), genH264Nal(c, 5, 3+3*256)})
+	run(false, 1200, [][]byte{genH264Nal(c, 7, 40000), genH264Nal(c, 8, 25631), genH264Nal(c, 5, 30)})
+	run(false, 65535, [][]byte{genH264Nal(c, 7, 32768), genH264Nal(c, 8, 32763), genH264Nal(c, 1, 10)})
+	run(false, 200, [][]byte{genH264Nal(c, 7, 65530), genH264Nal(c, 8, 2), genH264Nal(c, 5, 9)})
+}
+
 // ---- independent RFC 6184 encoder (decoder clause of C10) ---------------------------------
 // plan item tokens: [0 xnal] single NAL unit packet, [1 nri [xunit...]] STAP-A, [2 h [xchunk...]] FU-A
 // (unit = h followed by the chunks; one FU-A packet per chunk, S on the first, E on the last)
@@ -388,6 +408,16 @@ func init() {
 		switch op {
 		case 1004:
 			return runRfc6184Plan(tokInt(toks[0]) != 0, tokList(toks[1]))
+		case 1005: // isAVC nhist [payloads]: history then an intact frame (C15)
+			avc := tokInt(toks[0]) != 0
+			var ps [][]byte
+			for _, t := range tokList(toks[2]) {
+				ps = append(ps, tokBytes(t))
+			}
+			return runResync(runH264UnmarshalSeq(avc, ps), int(tokInt(toks[1])), ps, func() func([]byte) ([]byte, error) {
+				d := &codecs.H264Packet{IsAVC: avc}
+				return d.Unmarshal
+			})
 		case 1001:
 			return runH264History(tokInt(toks[0]) != 0, tokList(toks[1]))
 		case 1002:
@@ -423,6 +453,7 @@ func init() {
 		Quick:    3000,
 		Thorough: 150000,
 		Gen: func(r *RNG, tier string, n int, emit func(op int, toks ...Tok)) {
+			emitH264Extremes(r.Fork(31337), emit)
 			for i := 0; i < n; i++ {
 				c := r.Fork(uint64(i))
 				disable, avc := c.Intn(3) == 0, c.Bool()
